@@ -129,6 +129,14 @@ def _string_case(ch):
                 "register q[1]\nbranch { '0': { g q[0] } }\n",
                 "from . usepulses *\nregister q[1]\n",
                 "from a..b usepulses *\n",
+                "from vlib.pulses.moda usepulses *\nlet n 2.5\nregister q[1]\nloop n { subcircuit { XA q[0] } }\n",
+                "from vlib.pulses.moda usepulses *\nlet n -1\nregister q[1]\nloop n { subcircuit { XA q[0] } }\n",
+                "from vlib.pulses.moda usepulses *\nlet n 0.5\nregister q[1]\nsubcircuit n { XA q[0] }\n",
+                "from vlib.pulses.moda usepulses *\nlet n 1\nregister q[n]\nmap a q[n]\nsubcircuit { XA a }\n",
+                "from vlib.pulses.moda usepulses *\nregister q[2]\nmacro m a b { GP a }\nsubcircuit { m q[0] }\n",
+                "from vlib.pulses.moda usepulses *\nregister q[2]\nmacro m a { GP a a }\nsubcircuit { m q[0] }\n",
+                "from vlib.pulses.modb usepulses *\nregister q[2]\nsubcircuit { GP q[0] q[0] }\n",
+                "from vlib.pulses.modb usepulses *\nregister q[2]\nsubcircuit { < XB q[0] | XB q[0] > }\n",
             ]
         )
     else:
@@ -138,7 +146,7 @@ def _string_case(ch):
     return {"text": text, "entry": entry, "kind": kind, "tokens": tokens}
 
 
-_BIGNUM = re.compile(r"[0-9]{3,}|[0-9][eE.]")
+_BIGNUM = re.compile(r"[0-9]{3,}|[0-9.][eE][-+0-9]")
 _USEP = re.compile(r"from\s+(\.?[A-Za-z_](?:\.?[A-Za-z0-9_])*|\.)\s+usepulses")
 
 
